@@ -268,19 +268,28 @@ package core
 // At start-up the stored snapshot is resumed only if it is not ahead of the chain: a snapshot that
 // names a next block beyond head+1 was written before blocks were reverted and is rebuilt from the
 // headers, never trimmed back (its bits below the head may describe replaced blocks).
+//@ func GetChainHeight
+//@   trusted
+//@   ownpackage
 //@ func GetRunningEventFilter
 //@   trusted
+//@   ownpackage
 //@ func (*RunningEventFilter).NextBlock
 //@   trusted
+//@   ownpackage
 //@ func (*RunningEventFilter).InnerFilter
 //@   trusted
+//@   ownpackage
 //@ func NewRunningEventFilterHot
 //@   trusted
+//@   ownpackage
 //@ func fillRunningEventFilter
 //@   trusted
+//@   ownpackage
 //@   modifies *
 //@ func rebuildRunningEventFilter
 //@   trusted
+//@   ownpackage
 //@   modifies *
 //@ func InitializeRunningEventFilter
 //@   props C09
